@@ -31,7 +31,8 @@ TECHNIQUE = ("property-based testing over schedules and histories: generated pro
 RULE = ("case = generated project x set of (hash seed, file order, parallel, history) runs; non-trivial iff the project has "
         ">=3 files and >=1 name shared across files; distinct by SHA-1 of the sources")
 ASSUMPTIONS = ["print_creation_date stays off (the only documented source of run-to-run difference)",
-               "file enumeration order is modelled by re-ordering the result of find_all_files"]
+               "file enumeration order is modelled by re-ordering the result of find_all_files, directory enumeration "
+               "order (static pages) by sorting the result of os.listdir ascending or descending"]
 NAMES = ["solve", "init", "norm", "apply"]
 
 
@@ -95,6 +96,17 @@ def gen_case(ch: Chooser, excl=()):
     options = {"project": "P", "src_dir": "./src", "output_dir": "./doc", "preprocess": False, "graph": True, "search": True,
                "display": ["public", "private", "protected"], "proc_internals": True, "graph_dir": "./graphs",
                "print_creation_date": False}
+    pages = "static_pages" not in excl and ch.bool(1, 2)
+    if pages:
+        # static pages; the top page orders only some of its sub-pages explicitly
+        options["page_dir"] = "./pages"
+        subs = ch.shuffle(["zeta", "beta", "gamma", "delta", "alpha"])[: ch.count(3, 5)]
+        files["pages/index.md"] = f"title: Notes\nordered_subpage: {subs[0]}.md\n\nTop page.\n"
+        for sname in subs:
+            files[f"pages/{sname}.md"] = f"title: {sname.capitalize()}\n\nPage {sname}.\n"
+        files["pages/more/index.md"] = "title: More\n\nMore pages.\n"
+        files["pages/more/one.md"] = "title: One\n\nPage one.\n"
+        files["pages/more/two.md"] = "title: Two\n\nPage two.\n"
     files["project.md"] = site.project_file(options, "Deterministic?\n")
     # an unrelated project whose output may be left behind in the output directory
     other = {"src/zz.f90": "module leftover\n  !! from another project\n  integer :: q\nend module leftover\n",
@@ -103,7 +115,7 @@ def gen_case(ch: Chooser, excl=()):
     names = sorted(k[len("src/"):] for k in files if k.startswith("src/"))
     perm_seed = ch.int(1000)
     return {"files": files, "other": other, "names": names, "perm_seed": perm_seed,
-            "classes": [f"files:{len(names)}"] + (["shared-names"] if shared else []) + (["same-basename"] if same_base else []),
+            "classes": [f"files:{len(names)}"] + (["shared-names"] if shared else []) + (["same-basename"] if same_base else []) + (["static-pages"] if pages else []),
             "nontrivial": len(names) >= 3 and shared}
 
 
@@ -133,6 +145,11 @@ def run_ford(root: Path, hashseed, order, parallel):
         env["VFW_FILE_ORDER"] = json.dumps(order)
     else:
         env.pop("VFW_FILE_ORDER", None)
+    # directory enumeration: ascending for orders that start low, descending otherwise, the file system's own when the
+    # source order is native too
+    env.pop("VFW_LISTDIR", None)
+    if order is not None:
+        env["VFW_LISTDIR"] = "asc" if list(order) == sorted(order) else "desc"
     cmd = [sys.executable, str(VERIF / "vfw" / "ford_wrapper.py"), "project.md", "--config", f"parallel = {parallel}"]
     p = subprocess.run(cmd, cwd=root, env=env, capture_output=True, text=True, timeout=600)
     return p.returncode, (p.stdout + p.stderr)[-600:]
